@@ -18,30 +18,10 @@ def task_is_equal():
 
 def task_lcard():
     """L-card is machine-checked: lemmas/LCard.lean (Lean 4 + Mathlib) is compiled on every run; no `sorry`, no extra axioms"""
-    import shutil, subprocess
-    from pyvc.task import TaskResult
-    from pyvc.core import ObRec
-    r = TaskResult("C18/lemma:L-card")
-    path = os.path.join(common.ROOT, "lemmas", "LCard.lean")
-    src = open(path, encoding="utf-8").read()
-    t0 = time.time()
-    if shutil.which("lean") is None:
-        r.obs.append(ObRec("C18/lemma:L-card/lean-proof", "undecided", 0.0, "lean is not on PATH", kind="lemma-lean"))
-        return r
-    if "sorry" in src or "\naxiom " in src or "admit" in src:
-        r.obs.append(ObRec("C18/lemma:L-card/lean-proof", "undecided", 0.0, "the Lean file contains sorry / axiom / admit", kind="lemma-lean"))
-        return r
-    try:
-        p = subprocess.run(["lean", path], capture_output=True, text=True, timeout=900, cwd=os.path.dirname(path))
-        ok = p.returncode == 0 and "error" not in p.stdout and "sorry" not in p.stdout
-        detail = (p.stdout + p.stderr)[-600:]
-    except Exception as ex:  # noqa
-        ok, detail = False, repr(ex)
-    r.obs.append(ObRec("C18/lemma:L-card/lean-proof", "proved" if ok else "undecided", time.time() - t0, "" if ok else detail, kind="lemma-lean"))
-    r.assumptions.add("L-card: proved in Lean 4 + Mathlib (lemmas/LCard.lean: lcard_le, lcard_eq) for the abstract model of an insertion-ordered dict (n positions, "
-                      "an injective key function); the z3 side uses the two implications as instances for the dict pairs that is_equal compares — the "
-                      "correspondence between the heap encoding's dkey/dpos bijection and that abstract model is by inspection of dict_wf")
-    return r
+    return common.lean_task("C18/lemma:L-card", "C18/lemma:L-card/lean-proof", "LCard.lean",
+                            "L-card: proved in Lean 4 + Mathlib (lemmas/LCard.lean: lcard_le, lcard_eq) for the abstract model of an insertion-ordered dict (n positions, "
+                            "an injective key function); the z3 side uses the two implications as instances for the dict pairs that is_equal compares — the "
+                            "correspondence between the heap encoding's dkey/dpos bijection and that abstract model is by inspection of dict_wf")
 
 
 def bounded(tier):
